@@ -41,7 +41,8 @@ Proof.
   { right. exists ARun. destruct (step s ARun) as [s'|] eqn:E; [by exists s'|]. exfalso.
     cbn in E. rewrite Er in E. destruct r as [[k| |] pc]; try done. destruct pc; try done.
     - by destruct s.(pollfn).
-    - destruct s.(ready); [by destruct s.(ended)|done]. }
+    - destruct s.(ready); [by destruct s.(ended)|done].
+    - by destruct (is_slow x). }
   destruct s.(opq) as [|o q] eqn:Eo.
   2:{ right. exists ARun. cbn. rewrite Er, Eo. eexists. done. }
   destruct s.(chute) eqn:Ec.
